@@ -87,3 +87,16 @@ Definition C10_check (i : cin) (o : obs) : bool :=
   | Some (_, _, rows, conc) =>
       conc && (length rows =? length (i_ctxs i))%nat && forallb (row_ok (i_timed i)) rows
   end.
+
+(* ---- cases without a model prediction ----
+   (helpers that are not modelled; the `rare` binary with global switches and --funcs): the observed
+   output is a list of groups of strings, each group being the outputs that the property says are equal
+   (optimising builder / plain builder [/ inlined body]) for one input.  A crashed or failed run is
+   recorded by the harness as a distinguished string, so it breaks the equality. *)
+Definition all_eq (g : list bytes) : bool :=
+  match g with
+  | [] => false
+  | x :: r => forallb (bytes_eqb x) r
+  end.
+Definition C10_eq_check (groups : list (list bytes)) : bool :=
+  match groups with [] => false | _ => forallb all_eq groups end.
